@@ -113,6 +113,7 @@ def new_interp(ctx, contract_obj):
     it.loop_specs.update(getattr(contract_obj, "loop_specs", {}) or {})
     it.fn_summaries.update(getattr(contract_obj, "fn_summaries", {}) or {})
     it.frozen_time = bool(getattr(contract_obj, "frozen_time", False))
+    it.clock_patience = getattr(contract_obj, "clock_patience", None)
     return it
 
 
